@@ -50,6 +50,7 @@
 EXTENDS Integers, Sequences, FiniteSets, TLC
 
 CONSTANTS Leaves,          \* sequence of [name, cls, n, m, states, cstates]; states = sequence of <<tsi, iti>>
+          LeafTab,         \* the same table as a record  name |-> leaf record  (fast lookup)
           ReflectedStyle,  \* "swap": reverse overloads swap the children and use the forward tag (HEAD, 1a3b69b2e)
                            \* "rtag": they keep [self, other] and tag rmul / rdiv / rpow / rmatmul (before)
           UfuncOptOut,     \* TRUE: Operator.__array_ufunc__ = None
@@ -69,7 +70,7 @@ TimeDep(c) == c \in VarClasses \cup {"TimeDependentDenseArray"}      \* isinstan
 Iterative(c) == c \in VarClasses                                       \* isinstance(op, IterativeOperator)
 
 LeafNames == {Leaves[i].name : i \in 1..Len(Leaves)}
-LeafTab == [nm \in LeafNames |-> Leaves[CHOOSE i \in 1..Len(Leaves) : Leaves[i].name = nm]]
+LeafTabOK == DOMAIN LeafTab = LeafNames /\ \A i \in 1..Len(Leaves) : LeafTab[Leaves[i].name] = Leaves[i]
 
 \* ---------------------------------------------------------------- kinds
 KF == <<"F", 0, 0>>
@@ -349,7 +350,8 @@ AdMethodK(method, rk, ak) ==
          [] OTHER -> KE                                                   \* sparse matrices, slicers: ValueError / delayed
 AdCall(method, recv, arg) ==
   LET k == AdMethodK(method, recv.k, arg.k)
-  IN IF k = KE THEN PErr("ValueError in AdArray." \o method) ELSE PV(k, <<"ad", method, recv.t, arg.t>>)
+  IN IF arg.k = KO \/ recv.k = KO THEN PErr("numpy capture")
+     ELSE IF k = KE THEN PErr("ValueError in AdArray method") ELSE PV(k, <<"ad", method, recv.t, arg.t>>)
 
 \* float / numpy / scipy arithmetic among F, V, M (no AdArray, no slicer involved)
 PyK(sym, k0, k1) ==
@@ -366,14 +368,16 @@ PyK(sym, k0, k1) ==
 Infix(sym, x0, x1) ==
   LET k0 == x0.k
       k1 == x1.k
-  IN CASE k0 = KE \/ k1 = KE -> PErr("operand error")
+  IN CASE k0 = KE -> x0                                                        \* the first error propagates
+       [] k1 = KE -> x1
+       [] k0 = KO \/ k1 = KO -> PErr("numpy capture")                           \* an object array went on
        [] k0[1] = "A" -> AdCall(FwdName(sym), x0, x1)
        [] k0[1] = "F" /\ k1[1] = "A" -> AdCall(ReflName(sym), x1, x0)          \* float.__op__ -> NotImplemented
        [] k0[1] = "V" /\ k1[1] = "A" -> PV(KO, <<"py", sym, x0.t, x1.t>>)      \* numpy broadcasts over the AdArray object
        [] k0[1] = "M" /\ k1[1] = "A" -> AdCall(ReflName(sym), x1, x0)          \* scipy -> NotImplemented -> AdArray.__rop__
        [] k0[1] = "S" -> IF sym = "@" /\ MatmulK(k0, k1) # KE THEN PV(MatmulK(k0, k1), <<"sl", x0.t, x1.t>>)
                          ELSE PErr("ArraySlicer supports only @")
-       [] k0[1] \in {"L", "O"} \/ k1[1] \in {"S", "L", "O"} -> PErr("unsupported operand")
+       [] k0[1] = "L" \/ k1[1] \in {"S", "L"} -> PErr("unsupported operand")
        [] OTHER -> LET k == PyK(sym, k0, k1) IN IF k = KE THEN PErr("numpy / scipy error") ELSE PV(k, <<"py", sym, x0.t, x1.t>>)
 
 Sym(tag) == CASE tag = "add" -> "+" [] tag = "sub" -> "-" [] tag = "mul" -> "*" [] tag = "div" -> "/"
@@ -395,7 +399,7 @@ ParseBin(tag, c0, c1) ==
            [] tag = "pow" -> AdCall("__rpow__", c1, c0)
            [] OTHER -> AdCall("__rmatmul__", c1, c0))
      ELSE Infix(Sym(tag), c0, c1)
-  ELSE PErr("ValueError: unknown operation " \o tag)
+  ELSE PErr("ValueError: unknown operation")
 
 RECURSIVE Parse(_, _)
 Parse(b, mode) ==
@@ -403,7 +407,9 @@ Parse(b, mode) ==
     [] b[1] = "node" -> ParseBin(b[2], Parse(b[3], mode), Parse(b[4], mode))
     [] b[1] = "eval" -> LET cs == [j \in 1..Len(b[3]) |-> Parse(b[3][j], mode)]
                             k == IF \E j \in 1..Len(cs) : cs[j].k = KE THEN KE ELSE FnK(b[2], [j \in 1..Len(cs) |-> cs[j].k])
-                        IN IF k = KE THEN PErr("error in operator function") ELSE PV(k, <<"call", b[2], [j \in 1..Len(cs) |-> cs[j].t]>>)
+                        IN IF \E j \in 1..Len(cs) : cs[j].k = KO \/ (cs[j].t[1] = "error" /\ cs[j].t[2] = "numpy capture") THEN PErr("numpy capture")
+                           ELSE IF k = KE THEN PErr("error in operator function")
+                           ELSE PV(k, <<"call", b[2], [j \in 1..Len(cs) |-> cs[j].t]>>)
     [] OTHER -> PErr("not a tree")
 
 \* ---------------------------------------------------------------- comparing terms
@@ -468,9 +474,27 @@ LawPrevNoDerivative(e) ==
   IN /\ (p.k[1] = "A") = (cur # {})                           \* a derivative exists iff a current variable occurs
      /\ {x \in TermLeaves(Norm(p.t)) : LeafTab[x[1]].cls \in VarClasses /\ x[2] < 0 /\ x[3] < 0} = cur
      /\ \A j \in 1..Len(subs) : Parse(Build(subs[j]), "deriv").k[1] # "A"
-RECURSIVE HasCapture(_, _)
-HasCapture(b, mode) ==     \* some sub-tree is evaluated by numpy broadcasting over an AdArray
-  Parse(b, mode).k = KO \/ (b[1] = "node" /\ (HasCapture(b[3], mode) \/ HasCapture(b[4], mode)))
-                        \/ (b[1] = "eval" /\ \E j \in 1..Len(b[3]) : HasCapture(b[3][j], mode))
-LawNoNumpyCapture(e) == ~HasCapture(Build(e), "deriv") /\ ~HasCapture(Build(e), "value")
+\* numpy must never get to broadcast over an AdArray ("ndarray op AdArray" evaluated by numpy gives an object array):
+\* such a result is kind O, and every consumer of it reports the error "numpy capture"
+Captured(p) == p.k = KO \/ (p.t[1] = "error" /\ p.t[2] = "numpy capture")
+LawNoNumpyCapture(e) == ~Captured(Parse(Build(e), "deriv")) /\ ~Captured(Parse(Build(e), "value"))
+
+\* all laws at once, sharing the tree and its two parses
+LawsOf(e) ==
+  LET b == Build(e)
+      pd == Parse(b, "deriv")
+      pv == Parse(b, "value")
+      dd == Direct(e, 0, 0, "deriv")
+      dv == Direct(e, 0, 0, "value")
+      nd == Norm(pd.t)
+      cur == CurVars(e, 0, 0)
+      subs == PrevSubs(e, 0, 0)
+  IN /\ ~IsErr(b) /\ b[1] # "raw"
+     /\ pd.k = dd.k /\ Equiv(nd, dd.t)
+     /\ pv.k = dv.k /\ Equiv(Norm(pv.t), dv.t)
+     /\ pv.k = ValKind(pd.k)
+     /\ (pd.k[1] = "A") = (cur # {})
+     /\ {x \in TermLeaves(nd) : LeafTab[x[1]].cls \in VarClasses /\ x[2] < 0 /\ x[3] < 0} = cur
+     /\ \A j \in 1..Len(subs) : Parse(Build(subs[j]), "deriv").k[1] # "A"
+     /\ ~Captured(pd) /\ ~Captured(pv)
 =============================================================================
